@@ -80,6 +80,11 @@ CHECKS = {
         ],
         "assumptions": [],
     },
+    "C09": {
+        "level": "model_checking",
+        "units": [unit("c09-revocation", "revocation", ["zz_verif_c09_test.go"], "^TestVerifC09", shards={"quick": 16, "thorough": 16})],
+        "assumptions": ["toy 64-bit modulus with real ECDSA accumulator signatures; the update arithmetic does not depend on the modulus size"],
+    },
     "_FIX": {
         "level": "other",
         "units": [unit("genfix", "root", [], "^TestVerifGenFixtures$", env={"VERIF_GENFIX": "1"}, timeout=1800)],
